@@ -58,6 +58,9 @@ pub fn prop(tier: Tier, seed: u64) -> Prop {
         decode(idx, &d1, &mut d);
         let (w, h, alg, alpha) = (d[0] as u32 + 1, d[1] as u32 + 1, a1[d[2]], d[3] == 1);
         ctx.sample(|| json!({"image": [w, h], "alg": format!("{:?}", alg), "alpha": alpha, "crops": "every integer sub-rectangle (l,t,cw,ch) for W,H<=5, edge-touching ones above"}));
+        if ctx.describe_only {
+            return;
+        }
         let mut rects: Vec<(u32, u32, u32, u32)> = vec![];
         if w <= 5 && h <= 5 {
             for l in 0..w {
@@ -118,7 +121,7 @@ pub fn prop(tier: Tier, seed: u64) -> Prop {
             ctx.class(mix(mix(pt.idx() as u64, d[2] as u64), mix(alpha as u64, (w.min(3) * 4 + h.min(3)) as u64)));
         }
         ctx.nontrivial += 1;
-    }));
+    }).isolated());
 
     // ---- exactly one matching dimension: equals the line-by-line 1-D resize
     let al2: Vec<Alg> = vec![Alg::Nearest, Alg::Conv(F::Lanczos3), Alg::Conv(F::Box), Alg::Conv(F::Mitchell), Alg::Interp(F::Bilinear), Alg::SS(F::CatmullRom, 2), Alg::SS(F::Gaussian, 1)];
@@ -135,6 +138,9 @@ pub fn prop(tier: Tier, seed: u64) -> Prop {
             return;
         }
         ctx.sample(|| json!({"image": [w, h], "dst": [dw, dh], "alg": format!("{:?}", alg), "matching_dimension": if axis_x { "width" } else { "height" }, "alpha": alpha}));
+        if ctx.describe_only {
+            return;
+        }
         for (pi, pt) in ALL_PT.iter().copied().enumerate() {
             if alpha && !pt.has_alpha() {
                 continue;
@@ -180,7 +186,7 @@ pub fn prop(tier: Tier, seed: u64) -> Prop {
             }
         }
         ctx.nontrivial += 1;
-    }));
+    }).isolated());
 
     p.rule = "same size: every image size up to WxW x 36 algorithms (Nearest, 7 filters x {Convolution, Interpolation, SuperSampling m=1,2,3}) x alpha on/off x every integer sub-rectangle (all of them for W,H<=5) x 13 pixel types with rotating back-ends, tag and non-premultiplied contents: the destination must be a byte copy of the region; one matching dimension: sizes up to N^2 x the other extent 1..W x 7 algorithms x both axes x alpha: the result must equal the resize of each line taken alone (ints exact, floats 2 ulps)".into();
     p.bounds = json!({"W": wmax, "N": n2});
